@@ -1,0 +1,41 @@
+//go:build verif
+
+package engine
+
+import (
+	"text/template"
+
+	chart "helm.sh/helm/v4/pkg/chart/v2"
+	chartutil "helm.sh/helm/v4/pkg/chart/v2/util"
+)
+
+// VerifRenderable is renderable with exported fields. Vals is the very map object the
+// engine hands to the template (so sharing between templates is visible by identity).
+type VerifRenderable struct {
+	Tpl      string
+	Vals     chartutil.Values
+	BasePath string
+}
+
+// VerifAllTemplates returns allTemplates(c, vals).
+func VerifAllTemplates(c *chart.Chart, vals chartutil.Values) map[string]VerifRenderable {
+	m := allTemplates(c, vals)
+	out := make(map[string]VerifRenderable, len(m))
+	for k, r := range m {
+		out[k] = VerifRenderable{Tpl: r.tpl, Vals: r.vals, BasePath: r.basePath}
+	}
+	return out
+}
+
+// VerifRender runs Engine.render on a template map given from outside.
+func (e Engine) VerifRender(tpls map[string]VerifRenderable) (map[string]string, error) {
+	m := make(map[string]renderable, len(tpls))
+	for k, r := range tpls {
+		m[k] = renderable{tpl: r.Tpl, vals: r.Vals, basePath: r.BasePath}
+	}
+	return e.render(m)
+}
+
+// VerifFuncMap returns funcMap(): the function table before the engine binds the
+// context-specific functions.
+func VerifFuncMap() template.FuncMap { return funcMap() }
